@@ -114,7 +114,7 @@ def run(ctx):
         for more in (False, True):
             for csbk in (False, True):
                 for ev in A.RegistrationEvent:
-                    for _ in range(3 if ctx.quick else 12):
+                    for _ in range(3 if ctx.quick else 60):
                         dev, usr, pw = rng.choice(strs), rng.choice(strs), rng.choice(strs)
                         fl = [bool(rng.getrandbits(1)) for _ in range(3)]
                         observe("ars", lambda: A.AutomaticRegistrationService(
@@ -125,7 +125,7 @@ def run(ctx):
     # that has no trailer: field lengths 16 and 128, total lengths with a low octet of 0x10 / 0x80, the control character U+0010
     pool = ["", "\x10", "ab\x10", "q" * 16, "r" * 128, "s" * 127 + "\x10", "t" * 10, "u" * 11, "v" * 12, "w" * 13, "x" * 14, "y" * 15, "z" * 112, "k" * 125]
     for t in (P.DEVICE_REGISTRATION_REQUEST, P.USER_REGISTRATION_REQUEST):
-        for k in range(120 if ctx.quick else 1500):
+        for k in range(120 if ctx.quick else 8000):
             more = bool(rng.getrandbits(1))
             dev, usr, pw = rng.choice(pool), rng.choice(pool), rng.choice(pool)
             fl = [bool(rng.getrandbits(1)) for _ in range(3)] if k % 2 else [False, False, k % 4 == 0]
